@@ -52,6 +52,19 @@ def main():
         model = Model()
         try:
             mod.run(ctx, model)
+            # thorough tier: further rounds of every generated stream with seeds derived from the first
+            # (VERIF_THOROUGH_ROUNDS, default 3); exhaustive sub-streams are simply repeated
+            if tier == "thorough":
+                import random
+                rounds = int(os.environ.get("VERIF_THOROUGH_ROUNDS") or 3)
+                for extra in range(1, rounds):
+                    if ctx.violations or any(s["mismatches"] for s in ctx.streams.values()):
+                        break
+                    ctx.seed = seed * 1000003 + extra        # a replay records this seed and re-creates the same stream
+                    ctx.rng = random.Random("%s/%s/%d" % (prop, tier, ctx.seed))
+                    ctx.count("thorough-rounds")
+                    mod.run(ctx, model)
+                ctx.extra["thorough_rounds"] = rounds
             broken = ctx.proof["broken"] or any(s["mismatches"] for s in ctx.streams.values())
             if broken and not ctx.violations and hasattr(mod, "search"):
                 mod.search(ctx, model)
